@@ -1,6 +1,6 @@
 (* C06 -- pinned property theorems (nothing else lives here) *)
 From Coq Require Import ZArith NArith List Bool.
-From V Require Import Base.Term C06.Model C06.Proofs.
+From V Require Import Base.Term C06.Model C06.Proofs C06.Code C06.CodeProofs.
 Import ListNotations.
 
 (* Nothing dropped, nothing added, order kept: after head unification the clauses tried through the index of a
@@ -72,3 +72,59 @@ Example ex_incremental :
   answers (run [OpA (8%N, [Flt 0; Var 0]); OpR 2%N; OpZ (9%N, [Int 2; Var 0])] (build true ex_clauses)) [Rat 2 1; Var 9] = [4%N; 7%N; 9%N]
   /\ answers (run [OpA (8%N, [Flt 0; Var 0]); OpR 2%N] (build true ex_clauses)) [Flt (2 ^ 63); Var 9] = [8%N; 4%N].
 Proof. vm_compute. split; reflexivity. Qed.
+
+(* ==== the indexing CODE of consulted (static) predicates (Code.v: mirror of compile_predicate / compile_pred_subseq /
+   index_term / compute_indices and of the IndexingCode arm of the dispatch loop) ==== *)
+
+(* Running the generated code -- outer try_me_else/retry_me_else/trust_me chain over the sub-sequences, switch_on_term
+   with Fail / External / Internal pointers, switch_on_constant, switch_on_structure, IndexedChoice try/retry/trust with
+   the (bp, boip, biip) or-frames, inner chain for an unbound argument -- enters exactly the clauses the abstract index
+   selects, in that order, never gets stuck and needs no more than 3 * |code| + 1 steps; for every clause list, every
+   clause-code length function and every call. *)
+Theorem code_refines_model : forall clen clauses call,
+  exec_code (build_code clen clauses) call = Some (select (build false clauses) call) /\
+  exec_clauses (build_code clen clauses) call = select (build false clauses) call.
+Proof. exact (fun clen cs call => conj (code_refines_thm clen cs call) (code_refines_list_thm clen cs call)). Qed.
+Print Assumptions code_refines_model.
+
+(* ... hence (index_exact transfers) after head unification they are exactly the unifying clauses in textual order *)
+Theorem code_select_exact : forall clen clauses call,
+  option_map (filter (unifies call)) (exec_code (build_code clen clauses) call) = Some (filter (unifies call) clauses) /\
+  filter (unifies call) (exec_clauses (build_code clen clauses) call) = filter (unifies call) clauses.
+Proof. exact code_select_exact_thm. Qed.
+Print Assumptions code_select_exact.
+
+Theorem code_answers_are_naive : forall clen clauses call,
+  map fst (filter (unifies call) (exec_clauses (build_code clen clauses) call)) = naive clauses call.
+Proof. exact code_answers_naive_thm. Qed.
+Print Assumptions code_answers_are_naive.
+
+(* ---- non-vacuity: the mirror's listing of
+        p(a,1). p(b,2). p(a,3). p(f(_),4). p([x|_],5). p(g(_),6). p([],7). p(_,8). p(1,9). p(1,10). p(c,11).
+   is, item for item, what library(diag) wam_instructions(p/2, Is) lists for it (offsets included) *)
+Definition ex_code_clauses : list clause :=
+  [ (1%N, [A 97; Int 1]); (2%N, [A 98; Int 2]); (3%N, [A 97; Int 3]); (4%N, [Cmp [102%N] [Var 0]; Int 4]);
+    (5%N, [Cmp dot [A 120; Var 0]; Int 5]); (6%N, [Cmp [103%N] [Var 0]; Int 6]); (7%N, [tnil; Int 7]); (8%N, [Var 0; Int 8]);
+    (9%N, [Int 1; Int 9]); (10%N, [Int 1; Int 10]); (11%N, [A 99; Int 11]) ].
+Definition ex_code_lens : list nat := [3; 3; 3; 4; 4; 4; 3; 2; 3; 3; 3].
+Example ex_code_listing :
+  check_listing ex_code_clauses ex_code_lens
+    [ OTry 33;
+      OIdx [ LTerm 1 (PExt 1) (PInt 1) (PExt 19) (PInt 2);
+             LCon [(KAtom [97%N], PInt 2); (KAtom [98%N], PExt 6); (KAtom nil_name, PExt 29)];
+             LStr [(([102%N], 1), PExt 14); (([103%N], 1), PExt 24)];
+             LChoice [ITry 2; ITrust 10] ];
+      OTry 4; OClause 1 3; ORetry 4; OClause 2 3; ORetry 4; OClause 3 3; ORetry 5; OClause 4 4; ORetry 5; OClause 5 4;
+      ORetry 5; OClause 6 4; OTrust; OClause 7 3;
+      ORetry 3; OClause 8 2;
+      OTrust;
+      OIdx [ LTerm 1 (PExt 1) (PInt 1) PFail PFail; LCon [(KInt 1, PInt 1); (KAtom [99%N], PExt 10)]; LChoice [ITry 2; ITrust 6] ];
+      OTry 4; OClause 9 3; ORetry 4; OClause 10 3; OTrust; OClause 11 3 ] = true.
+Proof. vm_compute. reflexivity. Qed.
+(* and the machine really goes through the IndexedChoice line, the External pointers and the outer chain *)
+Example ex_code_runs :
+  option_map (map fst) (exec_code (build_code (clen_of ex_code_lens) ex_code_clauses) [A 97; Var 0]) = Some [1%N; 3%N; 8%N] /\
+  option_map (map fst) (exec_code (build_code (clen_of ex_code_lens) ex_code_clauses) [Int 1; Var 0]) = Some [8%N; 9%N; 10%N] /\
+  option_map (map fst) (exec_code (build_code (clen_of ex_code_lens) ex_code_clauses) [Cmp [103%N] [Var 0]; Var 0]) = Some [6%N; 8%N] /\
+  option_map (map fst) (exec_code (build_code (clen_of ex_code_lens) ex_code_clauses) [Int 5; Var 0]) = Some [8%N].
+Proof. vm_compute. repeat split; reflexivity. Qed.
